@@ -137,7 +137,11 @@ func (wp *wPaths) src(e ast.Expr, set map[string]bool, depth int) bool {
 			return false
 		}
 		if sel, ok := x.Fun.(*ast.SelectorExpr); ok && len(x.Args) == 0 {
-			// a method of a field value (t.UnixNano(), d.Milliseconds()): computed from that value
+			// a method of a field value (t.UnixNano(), d.Milliseconds()): computed from that value; a method of
+			// the whole message (b.computeAttributes()) is computed from several fields: no single source
+			if id, ok := ast.Unparen(sel.X).(*ast.Ident); ok && wp.w.recv != nil && info.ObjectOf(id) == wp.w.recv {
+				return false
+			}
 			return wp.src(sel.X, set, depth)
 		}
 		return false
@@ -584,11 +588,11 @@ func (w *wFunc) coderCallKind(call *ast.CallExpr) (string, bool) {
 	if !ok {
 		return "", false
 	}
-	if id, ok := sel.X.(*ast.Ident); ok && w.info.Uses[id] == w.coder {
+	if id, ok := sel.X.(*ast.Ident); ok && w.isCoder(w.info.Uses[id]) {
 		return sel.Sel.Name, true
 	}
 	if (sel.Sel.Name == "encode" || sel.Sel.Name == "decode") && len(call.Args) >= 1 {
-		if id, ok := ast.Unparen(call.Args[0]).(*ast.Ident); ok && w.info.Uses[id] == w.coder {
+		if id, ok := ast.Unparen(call.Args[0]).(*ast.Ident); ok && w.isCoder(w.info.Uses[id]) {
 			return sel.Sel.Name, true
 		}
 	}
